@@ -24,7 +24,11 @@ THEOREMS = [
     "Rtosc.Ring.hasNext_exact_osc", "Rtosc.Ring.conc_accept_exact_osc",
     "Rtosc.Ring.conc_cursor_is_queue_osc", "Rtosc.Ring.conc_lookahead_fifo_osc", "Rtosc.Ring.hasNext_exact_cursor_osc",
     "Rtosc.Ring.hasNextLookahead_exact_osc", "Rtosc.Ring.conc_read_exact_osc", "Rtosc.Ring.conc_quiescent_queue_osc",
-    "Rtosc.Ring.bundle_not_self_delimiting_counterexample", "Rtosc.Ring.raw_write_bundle_hang_counterexample",
+    "Rtosc.Ring.bundle_not_self_delimiting_counterexample",
+    # raw_write's rtosc_message_length(msg,-1) returns on every block (former finding C06-K6,
+    # fixes/C06-bundle-length-wrap.patch)
+    "Rtosc.Ring.rawLen_terminates", "Rtosc.Ring.rawLen_bundle_terminates", "Rtosc.Ring.rawLen_bundle_inside",
+    "Rtosc.Ring.raw_write_returns", "Rtosc.Ring.raw_write_wrapping_bundle_dropped",
 ]
 HARNESS = {"src": ["tlink.cpp"], "exclude": ["src/cpp/thread-link.cpp"], "deps": ["common.h", "tl_sched.h"]}
 STATELESS = True
@@ -36,9 +40,10 @@ RULE = ("four streams. seq (quick 5500 / thorough 55000): random operation histo
         "rings of 256..3072 bytes (64x8, 100x7, 256x5, 1024x3, 48x11, 128x2, 255x3). fill (quick 500 / thorough 5000): "
         "directed histories that steer the number of queued bytes to a boundary - every multiple of 256 the ring can "
         "hold, 65536 on a 71680-byte ring (1024x70; quick 1 / thorough 3 lines), the capacity, one word short of it - "
-        "after rotating the ring, and ask hasNext / hasNextLookahead / lookahead reads / one more write there. hang "
-        "(quick 1 / thorough 4): raw_write of a bundle whose element sizes lead the 32-bit position round in a circle "
-        "(finding C06-K6). conc (quick 25000 / thorough 150000): writer history (1..5 ops, all four kinds) x reader "
+        "after rotating the ring, and ask hasNext / hasNextLookahead / lookahead reads / one more write there. wrap "
+        "(quick 6 / thorough 24): raw_write of a bundle whose element sizes would lead the 32-bit position round in a "
+        "circle (one size 0xfffffffc; sizes adding up to 2^32-8): length 0 since fixes/C06-bundle-length-wrap.patch, "
+        "the block is dropped and the line must finish (former finding C06-K6). conc (quick 25000 / thorough 150000): writer history (1..5 ops, all four kinds) x reader "
         "history (1..8 ops) x memcpy chunk size (whole, 1, 2, 3, 4, 5, 8 bytes; 7, 16, 64 on the bigger rings) x random "
         "schedule (thread choice at every shared access, biased and bursty); thorough additionally *every* schedule, "
         "enumerated by the model, of ~550 histories with <= 2 writer and <= 2 reader operations behind a sequential "
@@ -58,7 +63,10 @@ ASSUMPTIONS = [
     "everything written is an OSC *message*: the encoding (C01 Spec.encode) of a well-formed message whose address does "
     "not start with '#' (IsOscMsg). For these, Framing is proved of the model of rtosc_message_ring_length "
     "(framing_osc, from C01 ringLength_encode) and raw_write's rtosc_message_length(msg,-1) is proved to return the "
-    "same length (rawLen_msg); bundles sent through raw_write are outside (findings C06-K5, C06-K6)",
+    "same length (rawLen_msg); bundles sent through raw_write are outside the FIFO theorems (finding C06-K5); that "
+    "raw_write returns is proved for every block shorter than 2^32 bytes and every bundle, whatever it holds "
+    "(rawLen_terminates, rawLen_bundle_terminates, raw_write_returns; fixes/C06-bundle-length-wrap.patch, former "
+    "finding C06-K6)",
     "ring size >= 1 byte (max_messages >= 1, MaxMsg >= 1); build with NDEBUG (default build type): the asserts are no code",
     "raw_write drops messages longer than MaxMsg (fixes/C06-rawwrite-maxmsg.patch, F6); buffer_size() is the size of "
     "buffer() (fixes/C06-buffer-size.patch, F7)",
@@ -98,7 +106,11 @@ LEVEL_TEXT = ("Lean theorems, stated for an abstract framing function and instan
               "hasNextLookahead answer exactly 'a published message lies at the cursor' at their load "
               "(hasNext_exact_cursor, hasNextLookahead_exact); a state with both threads between operations is a "
               "sequential ThreadLink that refines the bounded FIFO holding the unconsumed published messages with that "
-              "lookahead cursor, for any further history (conc_quiescent_queue). The models are compared with the "
+              "lookahead cursor, for any further history (conc_quiescent_queue). For arbitrary payloads (any block "
+              "shorter than 2^32 bytes, any bundle): raw_write's rtosc_message_length(msg,-1) returns, so every "
+              "operation of the sequential model returns unless the length walk reads behind the block it was handed "
+              "(rawLen_terminates, rawLen_bundle_terminates, raw_write_returns; fixes/C06-bundle-length-wrap.patch). "
+              "The models are compared with the "
               "compiled thread-link.cpp under a deterministic scheduler (same schedule on both sides, access traces and "
               "outputs equal) and an independent FIFO reference, keyed on explicit operation begin/end markers, is "
               "evaluated on the implementation's outputs")
@@ -204,6 +216,25 @@ def bundle_block(rng):
 
 def is_bundle(b):
     return b.startswith(b"#bundle\0")
+
+
+def no_packet(b):
+    """a block that starts with `#bundle\\0` but is no OSC bundle: following the element sizes (plain integers, no
+    32-bit arithmetic) some element does not end inside the block, or no terminating zero word is reached.  Such a
+    block holds no message; `rtosc_message_length` reports 0 for it ("no full message present") and raw_write must
+    return without queueing anything (former finding C06-K6: it did not return)."""
+    if not is_bundle(b):
+        return False
+    pos = 16
+    while True:
+        if pos + 4 > len(b):
+            return True
+        adv = struct.unpack(">I", b[pos:pos + 4])[0]
+        if adv == 0:
+            return False
+        if pos + 4 + adv > len(b):
+            return True
+        pos += 4 + adv
 
 
 def wmsg(tok):
@@ -329,27 +360,30 @@ def gen_seq_fill(rng, stats, ring=None):
     return "seq %d %d %s" % (maxMsg, nmsgs, " ".join(ops))
 
 
-def hang_block(rng):
-    """finding C06-K6: a bundle whose chain of element sizes leads `unsigned pos` back to a position it has
-    already visited (one element of size 0xfffffffc, or two elements whose sizes add up to 2^32 - 8)"""
+def wrap_block(rng):
+    """former finding C06-K6 (fixes/C06-bundle-length-wrap.patch): a bundle whose chain of element sizes led
+    `unsigned pos` back to a position it had already visited (one element of size 0xfffffffc, or two elements whose
+    sizes add up to 2^32 - 8): raw_write never returned.  Repaired: length 0, the block is dropped."""
     head = b"#bundle\0" + b"\0" * 8
     if rng.random() < 0.5:
-        body = struct.pack(">I", 0xfffffffc) + rand_msg(rng, rng.choice([8, 12]))
+        # 0xffffffec is the smallest size whose end 16 + 4 + size is no 32-bit position
+        size = rng.choice([0xfffffffc, 0xfffffffc, 0xffffffec, 0xffffffff, rng.randint(0xffffffec, 0xffffffff)])
+        body = struct.pack(">I", size) + rand_msg(rng, rng.choice([8, 12]))
     else:
         m = rand_msg(rng, rng.choice([8, 12]))
         body = struct.pack(">I", len(m)) + m + struct.pack(">I", (1 << 32) - 8 - len(m)) + rand_msg(rng, 8)
     return head + body + b"\0" * 4
 
 
-def gen_seq_hang(rng, stats):
+def gen_seq_wrap(rng, stats):
     maxMsg, nmsgs = rng.choice([(32, 2), (48, 2), (64, 4)])
     ops = []
     for _ in range(rng.randint(0, 3)):
         ops.append(wtoken(rng, msg_for_ring(rng, maxMsg, 0)))
         ops.append(rng.choice("rlh"))
-    ops.append("x" + hx(hang_block(rng)))
+    ops.append("x" + hx(wrap_block(rng)))
     ops.extend(["h", "r"])
-    stats["seq_hang"] = stats.get("seq_hang", 0) + 1
+    stats["seq_wrap"] = stats.get("seq_wrap", 0) + 1
     return "seq %d %d %s" % (maxMsg, nmsgs, " ".join(ops))
 
 
@@ -504,8 +538,8 @@ def generate(rng, tier, stats):
         yield gen_seq(rng, stats, bundles=b)
     for _ in range(1 if tier == "quick" else 3):
         yield gen_seq_fill(rng, stats, ring=HUGE_RING)
-    for _ in range(1 if tier == "quick" else 4):
-        yield gen_seq_hang(rng, stats)
+    for _ in range(6 if tier == "quick" else 24):
+        yield gen_seq_wrap(rng, stats)
     for _ in range(nconc):
         stats["conc_random"] += 1
         yield gen_conc_random(rng, stats)
@@ -558,6 +592,8 @@ def oracle_seq(w, out):
         if op[0] in "wax":
             m = wmsg(op)
             fits = len(m) <= maxMsg and used + len(m) <= cap
+            if op[0] == "x" and no_packet(unhx(op[1:])):
+                fits = False                  # not a message: nothing may be queued (and the call has to return)
             if fits:
                 q.append(m)
                 used += len(m)
@@ -792,7 +828,8 @@ def oracle(op, out):
 # ---------------------------------------------------------------------------------------
 # known findings
 #   C06-K5: bundles are not self-delimiting inside the ring
-#   C06-K6: raw_write never returns on a bundle whose element sizes lead `pos` round in a circle
+#   (C06-K6, raw_write never returning on a bundle whose element sizes lead `pos` round in a circle, is fixed:
+#    fixes/C06-bundle-length-wrap.patch; a line that does not finish is a VIOLATION again)
 # ---------------------------------------------------------------------------------------
 def wtokens(op):
     w = op.split()
@@ -802,33 +839,6 @@ def wtokens(op):
 def has_bundle(op):
     """trigger predicate (Lean: Rtosc.Ring.HasBundle): some raw_write block starts with `#bundle\\0`"""
     return any(t[0] == "x" and is_bundle(unhx(t[1:])) for t in wtokens(op))
-
-
-def block_hangs(b):
-    """rtosc_message_length(msg,-1) on the block `b`: does the loop of bundle_ring_length come back to a
-    position it has visited, reading inside the block only?  (Lean: rawLen b = .hang)"""
-    if not is_bundle(b):
-        return False
-    pos = 16
-    seen = set()
-    while True:
-        if pos in seen:
-            return True
-        seen.add(pos)
-        if pos + 4 > len(b):
-            return False                      # would read outside the block: not this finding
-        adv = struct.unpack(">I", b[pos:pos + 4])[0]
-        if adv == 0:
-            return False
-        pos = (pos + ((4 + adv) & 0xffffffff)) & 0xffffffff
-
-
-def raw_write_hangs(op):
-    """trigger predicate (Lean: Rtosc.Ring.RawWriteHangs)"""
-    return any(t[0] == "x" and len(t) > 1 and block_hangs(unhx(t[1:])) for t in wtokens(op))
-
-
-HANG_OUTS = ("crash:signal:27", "crash:signal:14", "crash:timeout")
 
 
 def known(op, impl_out, model_out, defs):
@@ -841,10 +851,6 @@ def known(op, impl_out, model_out, defs):
         return None
     ids = set(d.get("id") for d in defs)
     if impl_out.startswith("crash"):
-        # K6: the line never finishes on the implementation side and the model says exactly that
-        if "C06-K6" in ids and op.startswith("seq ") and raw_write_hangs(op) and impl_out in HANG_OUTS and \
-                (model_out == "hang" or model_out.endswith(" hang")):
-            return "C06-K6"
         return None
     if "C06-K5" in ids and impl_out == model_out:
         return "C06-K5"
